@@ -182,7 +182,9 @@ positively), as read off `common/utils.go`; C02 owns the general statement.
   kind 0: small string                → `RESTORE key ttl payload`
   kind 1: `lua` aux record            → `SCRIPT LOAD body` unless `filter.lua`
   kind 2: big hash, first/only chunk  → [`DEL key` if key_exists = rewrite] `HSET key f v` … [`PEXPIRE key ttl` if it expires]
-  kind 3: big hash, continuation chunk (`NeedReadLen = 0`, `ExpireAt = 0`) → `HSET key f v` … -/
+  kind 3: big hash, continuation chunk (`NeedReadLen = 0`, `ExpireAt = 0`) → `HSET key f v` …
+  kind 4: list in the quicklist encoding (always element by element) → `EXISTS key` (the target of the runs answers 0: the key
+          is new, so no policy branch is taken) `RPUSH key e` … [`PEXPIRE key ttl` if it expires] -/
 def concreteCmds (rewrite filterLua : Bool) (e : Entry) : List DataCmd :=
   match e.kind with
   | 0 => [{ name := .restore, key := e.key, arg := [] }]
@@ -190,6 +192,10 @@ def concreteCmds (rewrite filterLua : Bool) (e : Entry) : List DataCmd :=
   | 2 =>
     (if rewrite then [{ name := .del, key := e.key, arg := [] }] else []) ++
     e.body.map (fun f => { name := .hset, key := e.key, arg := f }) ++
+    (if e.expire then [{ name := .pexpire, key := e.key, arg := [] }] else [])
+  | 4 =>
+    [{ name := .exists, key := e.key, arg := [] }] ++
+    e.body.map (fun f => { name := .rpush, key := e.key, arg := f }) ++
     (if e.expire then [{ name := .pexpire, key := e.key, arg := [] }] else [])
   | _ => e.body.map (fun f => { name := .hset, key := e.key, arg := f })
 
